@@ -457,8 +457,20 @@ func TestVerifC28Child(t *testing.T) {
 		AuthManager: test.NilAuthManager,
 		Parent:      test.NilLogger,
 	}
-	if err = s.Initialize(); err != nil {
-		t.Fatal(err)
+	for try := 0; ; try++ {
+		if err = s.Initialize(); err == nil {
+			break
+		}
+		if try >= 5 {
+			t.Fatal(err)
+		}
+		// the address was found by listen-and-close; another process may have taken it meanwhile: take a new one
+		time.Sleep(50 * time.Millisecond)
+		if l2, e2 := net.Listen("tcp", "127.0.0.1:0"); e2 == nil {
+			addr = l2.Addr().String()
+			l2.Close()
+			s.Address = addr
+		}
 	}
 	if os.Getenv("VERIF_C28_REQ") == "names" {
 		// three requests against the hostile directory: /list, /list with start, /get
